@@ -91,4 +91,37 @@ CHECKS["C07"] = {
             "closure of the final table is not proved end-to-end (the BFS contract is about order, not about the table); "
             "termination is not proved.",
 }
+CHECKS["C14"] = {
+    "text": "TriggerHandler.start is proved to save the previous sys/threading hooks before installing its own trace "
+            "function in both, and to touch nothing when tracing is disabled; shutdown puts back exactly the saved hooks "
+            "and leaves foreign hooks alone when it never installed its own; Deep.shutdown is proved to run every step "
+            "exactly once and every plugin's shutdown, to let nothing escape and to end marked stopped, for every subset "
+            "of failing steps; nothing at all happens when not started.",
+    "note": "sys/threading trace accessors are ghost state (trusted); step failures are Exceptions (KeyboardInterrupt "
+            "etc. out of scope); Deep.start idempotence and liveness of the timer thread are not decided here.",
+}
+CHECKS["C17"] = {
+    "text": "MetricActionContext._process_action is proved to report each metric once per processor through the "
+            "operation named by the lower-cased type with name, evaluated labels, namespace (default 'deep'), help, unit "
+            "and evaluated value; _process_metric gives the expression as a number or 1, labels from static values or "
+            "str(expression in the frame); with no processor can_trigger is False and nothing is evaluated.",
+    "note": "the processor list is the ConfigService property by contract (plugin generator not re-proved); floats are "
+            "reals; grpc metric-definition conversion is not covered.",
+}
+CHECKS["C19"] = {
+    "text": "ConfigService.__getattribute__ is proved equal to the precedence chain own attribute > code value > module "
+            "default > DEEP_<KEY> environment > None with callables called; is_app_frame is proved (quantified "
+            "search-loop invariants) to classify exactly by exclude-wins / include / app-root with the matching prefix; "
+            "IN_APP_INCLUDE/EXCLUDE yield flat text lists; the poll interval and SERVICE_SECURE are accepted as text or "
+            "typed values.",
+    "note": "own attributes / module attributes / environment are abstract partial maps; string prefix reasoning by "
+            "z3 with cvc5 as second back end; APP_ROOT derivation in deep.start and docs are not covered.",
+}
+CHECKS["C20"] = {
+    "text": "Per-iteration isolation proved for every loop over plugins: metric dispatch, span creation, span close, "
+            "plugin shutdown (an arbitrary Exception at the plugin call does not end the loop); TriggerContext.__exit__ "
+            "contains Exceptions per result.",
+    "note": "plugin loading/ordering (load_plugins) and resource providers in Deep.start are not yet under contract; "
+            "plugins are assumed not to mutate agent objects.",
+}
 NOT_APPLICABLE = {}
